@@ -83,9 +83,10 @@ func (c *Ctx) Cfg(k string, d int64) int64 { return c.Case.Get(k, d) }
 // Go starts a harness task. A panic inside it (repository code panicking on the
 // task's stack) is recorded as a violation of class "<prop>/panic".
 func (c *Ctx) Go(name string, f func()) {
+	grp, ord := simrt.Group(), simrt.NextOrd()
 	go func() {
 		defer c.recoverTask(name)
-		simrt.Yield("task:" + name)
+		simrt.Start("task:"+name, grp, ord)
 		f()
 	}()
 }
@@ -149,6 +150,10 @@ func DrawPolicy(r *rand.Rand, cs *simcore.Case) {
 	cs.Cfg["pol.jump_us"] = []int64{50, 1000, 5000, 53000, 1009000}[r.IntN(5)]
 }
 
+// CurrentRun is the run index of the simulation in progress (one-shot
+// harnesses report from inside the bubble).
+var CurrentRun int
+
 var discardLogger = slog.New(slog.NewTextHandler(io.Discard, &slog.HandlerOptions{Level: slog.LevelError + 100}))
 
 // Exec runs one case. replay == nil: schedule decisions come from PCG(seed).
@@ -159,6 +164,7 @@ func Exec(t *testing.T, h *Harness, prop string, cs simcore.Case, seed uint64, r
 	var s *simrt.Sim
 	finish := func(outcome string) {
 		res.Outcome = outcome
+		res.Run = CurrentRun
 		c.mu.Lock()
 		res.Violation, res.Class = c.violation, c.class
 		res.Probes, res.Faults, res.State, res.Ops = c.probes, c.faults, c.state, c.ops
@@ -208,10 +214,17 @@ func Exec(t *testing.T, h *Harness, prop string, cs simcore.Case, seed uint64, r
 			}
 			s.Stop()
 			if h.OneShot {
-				emit(res)
 				if res.Violation != "" {
 					// driver shrinks; hand over the raw schedule
 					writeRaw(prop, h, cs, res, choices, tr)
+				}
+				emit(res)
+				if f := os.Getenv("VERIF_TRACE"); f != "" && f != "1" {
+					sfx := ".gen"
+					if replay != nil {
+						sfx = ".replay"
+					}
+					os.WriteFile(f+sfx, []byte(strings.Join(tr, "\n")), 0o644)
 				}
 				os.Stdout.Sync()
 				os.Exit(0)
@@ -315,9 +328,9 @@ func Worker(t *testing.T, hs map[string]*Harness, pick func(prop string) *Harnes
 					lbl = s.ParkedLabelsUnsafe()
 				}
 				fmt.Fprintf(os.Stderr, "WATCHDOG run=%d stuck for %v; parked: %s\n", curRun.Load(), watchdog, lbl)
-				buf := make([]byte, 1<<20)
+				buf := make([]byte, 16<<20)
 				n := runtime.Stack(buf, true)
-				os.Stderr.Write(buf[:min(n, 60000)])
+				os.Stderr.Write(buf[:n])
 				os.Exit(3)
 			}
 		}
@@ -331,6 +344,7 @@ func Worker(t *testing.T, hs map[string]*Harness, pick func(prop string) *Harnes
 			os.Exit(2)
 		}
 		runStart.Store(time.Now().UnixNano())
+		CurrentRun = rf.Run
 		if mode == "replay" {
 			ch := rf.Choices
 			if ch == nil && rf.LogHash != 0 {
@@ -365,6 +379,7 @@ func Worker(t *testing.T, hs map[string]*Harness, pick func(prop string) *Harnes
 			continue
 		}
 		curRun.Store(int64(run))
+		CurrentRun = run
 		runStart.Store(time.Now().UnixNano())
 		fmt.Fprintf(os.Stderr, "RUNSTART %d\n", run)
 		res, choices, tr := Exec(t, h, prop, cs, seed, nil, os.Getenv("VERIF_TRACE") != "")
